@@ -56,7 +56,7 @@ def mk_style(tree, kw):
 
 def units(tier):
     us = [("FAULTS", i) for i in range(len(fault_docs()))]
-    us += [("MULTILINE",), ("ROOTLIST",), ("DUPKW",)]
+    us += [("MULTILINE",), ("ROOTLIST",), ("DUPKW",), ("WIDECHARS",), ("CONFIG",)]
     us += S.doc_units(["S1", "S1n", "S4", "ROOT"] + (["S2"] if tier == "thorough" else []), tier)
     if tier == "thorough":
         us += [("DEV", t) for t in V.object_types()]
@@ -514,6 +514,66 @@ def run_multiline(res):
     R.add_sub(res, "multi-line strings", len(MULTILINE))
 
 
+WIDE_STRINGS = ["cafe\u0301", "a\u0300\u0301b \u212b\u2126", "\U0001F600 astral", "\uff57\uff49\uff44\uff45", "tab\there", "\u200bzero width", "\u00e9 composed"]
+
+
+def run_widechars(res):
+    """strings holding combining sequences, compatibility characters, astral and full-width characters FOLLOWED by further keywords on
+    the same line: a column is a count of characters of the text as it was passed in"""
+    for s in WIDE_STRINGS:
+        rep = V.Rep([("str", s)], s, ["qstr"])
+        cls = D.Block("class", [D.kw("name", rep), D.kw("title", rep), D.kw("group", V.Rep([("str", "g")], "g", ["qstr"]))])
+        layer = D.Block("layer", [D.kw("name", rep), D.kw("type", V.Rep([("word", "POINT")], "POINT", ["word"])), D.kvblock("metadata", [(s, s, True, True), ("k", "v", True, True)]),
+                                  D.children("classes", cls), D.kw("group", rep), D.kw("data", V.Rep([("str", "d")], "d", ["qstr"]))])
+        for lname, lkw in LAYOUTS:
+            check_tree(res, "WIDECHARS %r" % s, layer, lname, lkw)
+    R.add_sub(res, "wide / combining / astral characters followed by further tokens on the line x layouts", res["evals"])
+
+
+def run_config(res):
+    """CONFIG lines (the one keyword stored as a dictionary without a position record of its own): whatever validate reports about a
+    CONFIG setting - every name the MAP schema lists, each with an out-of-vocabulary value - must carry the line and column of a CONFIG
+    keyword of the text"""
+    from .. import schemaeval as SE
+
+    names = sorted((SE.raw("map").get("properties", {}).get("config", {}) or {}).get("properties", {}) or {}) + ["ZZ_UNKNOWN"]
+    for name in names:
+        for value in ("zz bogus", "5", ""):
+            for lname, lkw in LAYOUTS[:4]:
+                lines = ["MAP", '  NAME "m"', '  CONFIG "%s" "%s"' % (name, value), '  CONFIG "MS_ERRORFILE" "stderr"', "  LAYER", "    TYPE POINT", "  END", "END"]
+                nl = "\r\n" if lname == "crlf" else "\n"
+                text = (" " if lname == "oneline" else nl).join(lines) + ("" if lname == "oneline" else nl)
+                if lname == "tabs":
+                    text = text.replace("  ", "\t")
+                res["evals"] += 1
+                try:
+                    d = impl.loads(text, include_position=True)
+                    msgs = impl.validate(d, schema_name="map")
+                except Exception as e:
+                    R.add_violation(res, "config_exc|%s|%s" % (name, lname), "%s: %s" % (impl.exc_name(e), str(e)[:100]), {"text": text}, None)
+                    continue
+                # where CONFIG keywords start in this text
+                starts = set()
+                for li, ln in enumerate(text.split("\n")):
+                    col = 0
+                    while True:
+                        col = ln.find("CONFIG", col)
+                        if col < 0:
+                            break
+                        starts.add((li + 1, col + 1))
+                        col += 1
+                bad = [m for m in msgs if not isinstance(m.get("line"), int) or not isinstance(m.get("column"), int)
+                       or ("CONFIG" in m.get("message", "").upper() and (m["line"], m["column"]) not in starts)]
+                if bad:
+                    R.add_outcome(res, "unlocated")
+                    R.add_violation(res, "config_location|%s|%r|%s" % (name, value, lname), "a validation message about a CONFIG line has no (or the wrong) line/column: %r" % (bad[0],),
+                                    {"text": text, "config": True}, None)
+                else:
+                    R.add_outcome(res, "located_or_silent")
+                    res["states"].add(R.h64(text))
+    R.add_sub(res, "CONFIG settings x values x layouts", res["evals"])
+
+
 def run_unit(unit):
     res = R.new_result()
     if unit[0] == "FAULTS":
@@ -527,6 +587,12 @@ def run_unit(unit):
         return res
     if unit[0] == "DUPKW":
         run_dupkw(res)
+        return res
+    if unit[0] == "WIDECHARS":
+        run_widechars(res)
+        return res
+    if unit[0] == "CONFIG":
+        run_config(res)
         return res
     if unit[0] == "DEV":
         run_dev(res, unit[1])
@@ -565,4 +631,10 @@ def replay(case):
         if case.get("subset"):
             return None if all(list(w) in got for w in case["want"]) else {"got": got, "want": case["want"]}
         return {"got": got, "want": case["want"]} if got != [list(w) for w in case["want"]] else None
+    if case.get("config"):
+        import mappyfile
+
+        msgs = mappyfile.validate(mappyfile.loads(case["text"], include_position=True))
+        bad = [m for m in msgs if not isinstance(m.get("line"), int) or not isinstance(m.get("column"), int)]
+        return {"messages_without_location": bad} if bad else None
     return None
